@@ -79,7 +79,8 @@ SPEC = {'id': 'C12',
          'U+017F / near-miss spelling, unknown members, int literals around the int64 range, version lines); fixed '
          'corner cases; nesting around the 10000 limit; mutations, truncations and random bytes, each offered to its '
          'own and to foreign decoders; a case is non-trivial when the decoder did not answer with an error or the '
-         'input is valid JSON (decoders) / always (encoders); distinct = distinct (class, case line)',
+         'input is valid JSON (decoders) / always (encoders); distinct = distinct (class, case line)'
+         ' Fingerprints with one non-hex byte (any ASCII byte, biased to one-bit neighbours of hex digits) in both lengths.',
  'level_text': 'All clauses are kernel-checked theorems over a model that follows proxy.go, client.go and '
                'fingerprint.go statement by statement on top of an executable model of encoding/json: six round trips '
                'with the documented defaults under exactly the validity predicate each decoder enforces (for all List '
